@@ -343,10 +343,25 @@ func checkAxiosShape(w *World, r *Result) {
 		}
 		return false, false
 	}
+	// constant strings assigned to locals on the path taken (the branches may only choose fragments that one final
+	// Sprintf assembles)
+	env := map[types.Object]string{}
 	var run func(list []ast.Stmt, val map[string]bool) *ast.ReturnStmt
 	run = func(list []ast.Stmt, val map[string]bool) *ast.ReturnStmt {
 		for _, st := range list {
 			switch s := st.(type) {
+			case *ast.AssignStmt:
+				if len(s.Lhs) == len(s.Rhs) {
+					for i, l := range s.Lhs {
+						if id := identOf(l); id != nil {
+							if tv := cinfo.Types[s.Rhs[i]]; tv.Value != nil && tv.Value.Kind() == constant.String {
+								env[objOf(cinfo, id)] = constant.StringVal(tv.Value)
+							} else {
+								delete(env, objOf(cinfo, id))
+							}
+						}
+					}
+				}
 			case *ast.ReturnStmt:
 				return s
 			case *ast.BlockStmt:
@@ -439,12 +454,13 @@ func checkAxiosShape(w *World, r *Result) {
 				key += "0"
 			}
 		}
+		env = map[types.Object]string{}
 		ret := run(gc.Decl.Body.List, val)
 		if ret == nil {
 			evaluated = false
 			break
 		}
-		table[key] = axiosBodyArg(cinfo, &ast.BlockStmt{List: []ast.Stmt{ret}})
+		table[key] = axiosBodyArgEnv(cinfo, ret, env)
 	}
 	if evaluated {
 		wantArg := func(key string) string {
@@ -575,6 +591,43 @@ func condCalls(info *types.Info, cond ast.Expr) string {
 }
 
 // axiosBodyArg extracts, from the format string of the returned Sprintf, the second argument of the Axios call.
+// axiosBodyArgEnv: axiosBodyArg for one return statement, with the `%s` holes filled by locals that hold a known constant
+// on the path taken replaced by that constant.
+func axiosBodyArgEnv(info *types.Info, ret *ast.ReturnStmt, env map[types.Object]string) string {
+	if len(ret.Results) == 1 && len(env) > 0 {
+		if call := sprintfView(info, ret.Results[0]); call != nil {
+			if f, vas := verbArgs(info, call); f != "" {
+				out, last, changed := "", 0, false
+				for _, va := range vas {
+					out += f[last:va.start]
+					last = va.end
+					if id := identOf(va.arg); id != nil && va.verb == "%s" {
+						if v, ok := env[objOf(info, id)]; ok {
+							out += v
+							changed = true
+							continue
+						}
+					}
+					out += f[va.start:va.end]
+				}
+				out += f[last:]
+				if changed {
+					if i := strings.Index(out, "Axios.%s("); i >= 0 {
+						args := strings.Split(strings.TrimSuffix(strings.TrimSpace(out[i+len("Axios.%s("):]), ")"), ",")
+						switch len(args) {
+						case 3:
+							return strings.TrimSpace(args[1])
+						case 2:
+							return ""
+						}
+					}
+				}
+			}
+		}
+	}
+	return axiosBodyArg(info, &ast.BlockStmt{List: []ast.Stmt{ret}})
+}
+
 func axiosBodyArg(info *types.Info, body *ast.BlockStmt) string {
 	res := "?"
 	ast.Inspect(body, func(x ast.Node) bool {
@@ -802,6 +855,7 @@ func checkQueryConverters(w *World, r *Result) {
 		Undecided("AGR-C14k: asObjectKey has no switch over the basic kind")
 	}
 	nret := 0
+	chosen := map[types.Object]bool{} // locals the switch assigns and a later return uses
 	ast.Inspect(fi.Decl.Body, func(x ast.Node) bool {
 		ret, ok := x.(*ast.ReturnStmt)
 		if !ok {
@@ -809,6 +863,28 @@ func checkQueryConverters(w *World, r *Result) {
 		}
 		nret++
 		inside := kindSwitch.Pos() <= ret.Pos() && ret.End() <= kindSwitch.End()
+		if !inside && ret.Pos() > kindSwitch.End() && len(ret.Results) == 1 {
+			// the switch may only choose the format (or the text) in a local that the return after it uses
+			ast.Inspect(ret.Results[0], func(y ast.Node) bool {
+				id, ok := y.(*ast.Ident)
+				if !ok {
+					return true
+				}
+				obj := objOf(info, id)
+				ast.Inspect(kindSwitch, func(z ast.Node) bool {
+					if as, ok := z.(*ast.AssignStmt); ok {
+						for _, l := range as.Lhs {
+							if li := identOf(l); li != nil && objOf(info, li) == obj {
+								inside = true
+								chosen[obj] = true
+							}
+						}
+					}
+					return true
+				})
+				return true
+			})
+		}
 		r.cond(inside, "AGR-C14k", fi.Name, "return "+es(ret.Results[0]), w.Pos(ret.Pos()),
 			"the conversion is chosen inside the switch over the underlying basic kind",
 			"a conversion is returned before the switch over the basic kind: the parameter is converted by the shape of its type (e.g. every named type through String()) instead of by its kind, so a named bool is sent as \"false\" -- a non-empty string the server reads as true")
@@ -823,6 +899,14 @@ func checkQueryConverters(w *World, r *Result) {
 				if call := sprintfView(info, x); call != nil {
 					f, _ := verbArgs(info, call)
 					formats[es(e)] = f
+				}
+				// the clause assigns a constant to the local the final return formats with
+				if as, ok := x.(*ast.AssignStmt); ok && len(as.Lhs) == 1 && len(as.Rhs) == 1 {
+					if li := identOf(as.Lhs[0]); li != nil && chosen[objOf(info, li)] {
+						if tv := info.Types[as.Rhs[0]]; tv.Value != nil && tv.Value.Kind() == constant.String {
+							formats[es(e)] = constant.StringVal(tv.Value)
+						}
+					}
 				}
 				return true
 			})
